@@ -1,0 +1,13 @@
+//go:build verif
+
+// Contracts for the contract-based verification in /verif (comment-only file).
+
+package metrics
+
+//@ # metric label helpers have no effect on the state the contracts talk about
+//@ func FromCtx
+//@   trusted
+//@   modifies nothing
+//@ func (ProviderLabels).WithResult
+//@   trusted
+//@   modifies nothing
